@@ -91,6 +91,31 @@ type recClient struct {
 	reqs   *[]*http.Request
 }
 
+// flakyClient refuses the first failFirst[url] requests for a URL (503) and accepts the later ones after a short wait.
+type flakyClient struct {
+	mu        *sync.Mutex
+	failFirst map[string]int
+	posts     int
+}
+
+func (c *flakyClient) Do(req *http.Request) (*http.Response, error) {
+	if req.Body != nil {
+		ioutil.ReadAll(req.Body)
+	}
+	c.mu.Lock()
+	c.posts++
+	refuse := c.failFirst[req.URL.String()] > 0
+	if refuse {
+		c.failFirst[req.URL.String()]--
+	}
+	c.mu.Unlock()
+	if refuse {
+		return &http.Response{StatusCode: 503, Status: "503 scripted", Body: ioutil.NopCloser(strings.NewReader("")), Header: http.Header{}}, nil
+	}
+	time.Sleep(3 * time.Millisecond)
+	return &http.Response{StatusCode: 200, Status: "200 scripted", Body: ioutil.NopCloser(strings.NewReader("")), Header: http.Header{}}, nil
+}
+
 func (c recClient) Do(req *http.Request) (*http.Response, error) {
 	var body []byte
 	has := false
@@ -405,6 +430,30 @@ func runC19() {
 		for b, e := range errs {
 			if e == nil {
 				addV("concurrent-batches", map[string]interface{}{"what": fmt.Sprintf("batch %d with failing recipients returned nil", b)})
+			}
+		}
+	}
+	// one recipient named several times, the attempts with different outcomes (the first to arrive is refused, the later ones
+	// are accepted - after a while, so that they finish last): every attempt made, and an error naming the recipient
+	for _, shape := range [][]int{{0, 0}, {0, 1, 0}, {0, 0, 0}, {1, 0, 2, 0}} {
+		for rep := 0; rep < 6; rep++ {
+			var sigs []sigCapture
+			mu := &sync.Mutex{}
+			x := urlFor(7000)
+			fc := &flakyClient{mu: mu, failFirst: map[string]int{x: 1}}
+			tp := pub.NewHttpSigTransport(fc, "dup/1", fixedClock{1600000000}, recSigner{mu: mu, post: false, calls: &sigs}, recSigner{mu: mu, post: true, calls: &sigs}, "k", "PRIV")
+			var us []*url.URL
+			for _, i := range shape {
+				us = append(us, mustURL(urlFor(7000+5*i)))
+			}
+			err := tp.BatchDeliver(context.Background(), []byte("{}"), us)
+			if fc.posts != len(us) {
+				addV("duplicate-recipient", map[string]interface{}{"what": fmt.Sprintf("%d POSTs for %d recipients", fc.posts, len(us)), "recipients": fmt.Sprint(us)})
+				break
+			}
+			if err == nil || !strings.Contains(err.Error(), x) {
+				addV("duplicate-recipient", map[string]interface{}{"what": "one attempt for a recipient named twice failed (503), the other succeeded: BatchDeliver must return an error naming it", "recipients": fmt.Sprint(us), "returned": fmt.Sprint(err)})
+				break
 			}
 		}
 	}
